@@ -142,7 +142,7 @@ func (r *c03Reader) Read(p []byte) (int, error) {
 	return n, nil
 }
 
-const c03NumHow = 6
+const c03NumHow = 7
 
 // c03Apply performs one body-building call and returns the body it stands for.
 func c03Apply(ctx *RequestCtx, how int, body []byte, readerMode int) []byte {
@@ -163,6 +163,8 @@ func c03Apply(ctx *RequestCtx, how int, body []byte, readerMode int) []byte {
 		ctx.SetBodyStreamWriter(func(w *bufio.Writer) {
 			w.Write(body)
 		})
+	case 6: // stream, "unknown size" spelled as another negative number
+		ctx.SetBodyStream(&c03Reader{data: body, mode: readerMode}, -2)
 	}
 	return body
 }
@@ -204,6 +206,8 @@ func c03AfterHead(w []byte) int {
 	return len(w) - (i + 4)
 }
 
+var c03CloseAny bool
+
 // c03Check: the wire splits into exactly the responses built. declared >= 0
 // with a body stream of a different length selects the size-mismatch clause:
 // never more than the declared size on the wire, closed right after.
@@ -230,7 +234,10 @@ func c03Check(c *vsSegConn, calls int, isHead bool, status int, want []byte, wan
 	} else {
 		vAssert("body-as-built", string(rs[0].body) == string(want))
 	}
-	vAssert("close-header-as-set", rs[0].close == wantClose)
+	// a stream size below -1 ("identity until close") may or may not make the
+	// response say close, depending on status and later header calls; either
+	// is consistent framing as long as the connection then does what it says
+	vAssert("close-header-as-set", c03CloseAny || rs[0].close == wantClose)
 	if !rs[0].close {
 		vAssert("next-response-starts-where-this-ends", len(rs) == 2 && rs[1].status == 200 && string(rs[1].body) == "second" && calls == 2)
 	} else {
@@ -247,7 +254,7 @@ func vhC03ResponseFraming() {
 	isHead := vBool("head")
 	how := vChoose("how", c03NumHow)
 	readerMode := 0
-	if how == 2 || how == 3 {
+	if how == 2 || how == 3 || how == 6 {
 		readerMode = vChoose("readerMode", 3)
 	}
 	closeFirst := vBool("closeFirst")
@@ -259,6 +266,7 @@ func vhC03ResponseFraming() {
 		}
 		want = c03Apply(ctx, how, body, readerMode)
 	})
+	c03CloseAny = how == 6
 	c03Check(c, *calls, isHead, status, want, closeFirst, -1)
 }
 
@@ -281,6 +289,7 @@ func vhC03TwoCalls() {
 		c03Apply(ctx, how1, body1, 0)
 		want = c03Apply(ctx, how2, body2, 0)
 	})
+	c03CloseAny = how1 == 6 || how2 == 6
 	c03Check(c, *calls, isHead, status, want, false, -1)
 }
 
@@ -288,7 +297,7 @@ func vhC03TwoCalls() {
 func vhC03HandSet() {
 	body := c05Sym("body", vParam("bodyLen", 3))
 	how := vChoose("how", c03NumHow)
-	hand := vChoose("handSet", 5)
+	hand := vChoose("handSet", 6)
 	before := vBool("headerBeforeBody")
 	isHead := vBool("head")
 	var want []byte
@@ -309,6 +318,8 @@ func vhC03HandSet() {
 			case 4:
 				ctx.Response.Header.Add("Content-Length", "1")
 				ctx.Response.Header.Add("Transfer-Encoding", "identity")
+			case 5:
+				ctx.Response.Header.Del("Transfer-Encoding")
 			}
 		}
 		if before {
@@ -322,6 +333,7 @@ func vhC03HandSet() {
 			declared = ctx.Response.Header.ContentLength()
 		}
 	})
+	c03CloseAny = how == 6
 	c03Check(c, *calls, isHead, 200, want, wantClose, declared)
 }
 
@@ -340,6 +352,7 @@ func vhC03StreamMismatch() {
 	c, calls := c03Serve(false, false, func(ctx *RequestCtx) {
 		ctx.SetBodyStream(&c03Reader{data: body, mode: readerMode}, declared)
 	})
+	c03CloseAny = false
 	c03Check(c, *calls, false, 200, body, false, declared)
 }
 
@@ -365,5 +378,6 @@ func vhC03Timeout() {
 		}
 		want = body
 	})
+	c03CloseAny = false
 	c03Check(c, *calls, kind == 1, status, want, false, -1)
 }
